@@ -215,9 +215,42 @@ def _worker(args):
         return ('err', traceback.format_exc())
 
 
+def _one(task, path):
+    with open(path, 'w') as f:
+        json.dump(_worker(task), f)
+
+
+def _child(k, nproc, tasks, outpath):
+    """worker process k: runs the tasks k, k + nproc, ... - each in a short-lived process of its own, so that whatever the
+    replayed library keeps alive (memo caches, matplotlib figures) is returned to the system after every chunk - and writes
+    their results to its own file"""
+    out = []
+    ctx = multiprocessing.get_context('fork')
+    for j, t in enumerate(tasks[k::nproc]):
+        if j == 0:
+            out.append(_worker(t))       # in this process: everything the replay imports is then inherited by the forks below
+            continue
+        path = '%s.%d' % (outpath, j)
+        pr = ctx.Process(target=_one, args=(t, path))
+        pr.start()
+        pr.join()
+        if pr.exitcode != 0:
+            os._exit(3)
+        with open(path) as f:
+            out.append(json.load(f))
+        os.remove(path)
+    with open(outpath, 'w') as f:
+        json.dump(out, f)
+
+
 def sharded(modname, fn, items, extra=None, nproc=None, chunk=None):
     """Run mod.fn(items_chunk, extra) over chunks of items in forked workers.
-    fn returns a JSON-able result per chunk; returns the list of chunk results."""
+    fn returns a JSON-able result per chunk; returns the list of chunk results (in task order).
+
+    The workers are plain forked processes with a static share of the tasks and one result file each - no queues, no pool
+    management threads: a worker that dies (e.g. killed for lack of memory) is seen by its exit code, the others are
+    terminated and the run fails as a machinery failure. (multiprocessing.Pool waited for ever in that situation, and
+    concurrent.futures.ProcessPoolExecutor hung while cleaning up.)"""
     nproc = nproc or NPROC
     n = len(items)
     if n == 0:
@@ -226,23 +259,48 @@ def sharded(modname, fn, items, extra=None, nproc=None, chunk=None):
         chunk = max(1, min(2000, (n + nproc * 4 - 1) // (nproc * 4)))
     _WORK['items'] = items
     tasks = [(modname, fn, lo, min(n, lo + chunk), extra) for lo in range(0, n, chunk)]
-    ctx = multiprocessing.get_context('fork')
     if nproc == 1 or len(tasks) == 1:
         results = [_worker(t) for t in tasks]
     else:
-        # a ProcessPoolExecutor (not multiprocessing.Pool): when a worker dies - e.g. killed for lack of memory - the
-        # remaining futures fail with BrokenProcessPool instead of the map waiting for ever
-        import concurrent.futures as cf
         import gc
+        import tempfile
+        import shutil
+        nproc = min(nproc, len(tasks))
+        ctx = multiprocessing.get_context('fork')
+        tmp = tempfile.mkdtemp(prefix='verif-shard-')
         gc.collect()
-        gc.freeze()          # what the parent holds (parsed state graphs) stays shared with the forked workers
+        gc.freeze()          # what the parent holds (parsed state graphs, the items) stays shared with the forked workers
+        procs = []
         try:
-            with cf.ProcessPoolExecutor(min(nproc, len(tasks)), mp_context=ctx) as pool:
-                results = list(pool.map(_worker, tasks, chunksize=1))
-        except cf.process.BrokenProcessPool as e:
-            raise MachineryFailure('a replay worker died (out of memory?): %s' % e)
+            for k in range(nproc):
+                pr = ctx.Process(target=_child, args=(k, nproc, tasks, os.path.join(tmp, '%d.json' % k)))
+                pr.start()
+                procs.append(pr)
+            pending = set(range(nproc))
+            while pending:
+                for k in sorted(pending):
+                    procs[k].join(timeout=0.2)
+                    if procs[k].exitcode is None:
+                        continue
+                    if procs[k].exitcode != 0:
+                        raise MachineryFailure('replay worker %d died with exit code %s (killed for lack of memory?)' % (k, procs[k].exitcode))
+                    pending.discard(k)
+            per = []
+            for k in range(nproc):
+                with open(os.path.join(tmp, '%d.json' % k)) as f:
+                    per.append(json.load(f))
+            results = [None] * len(tasks)
+            for k in range(nproc):
+                for j, r in enumerate(per[k]):
+                    results[k + j * nproc] = r
         finally:
+            for pr in procs:
+                if pr.exitcode is None:
+                    pr.terminate()
+            for pr in procs:
+                pr.join(timeout=5)
             gc.unfreeze()
+            shutil.rmtree(tmp, ignore_errors=True)
     out = []
     for st, r in results:
         if st == 'err':
